@@ -165,6 +165,14 @@ def solve_checks(ctx, node, case, collect):
                 b[:, 2] = (1e6 * ev / max(np.linalg.norm(ev), 1e-300)).astype(b.dtype)
     bw = R._wide(b)
     xs = np.linalg.solve(ref.M, bw)
+    if case["alg"] in ("CG", "CG-P", "GMRES") and case["seed"] % 3 != 1:
+        # hostile history on the *same operator object*: a deliberately loose request of the same algorithm class first (one
+        # step, tolerance 0.3), through inv and through solve; what the strict request returns afterwards must not depend on it
+        from cola.linalg import CG, GMRES
+        loose = CG(tol=0.3, max_iters=1) if case["alg"] != "GMRES" else GMRES(tol=0.3, max_iters=1)
+        l1 = ctx.call(lambda: L.inv(A, loose) @ b)
+        l2 = ctx.call(L.solve, A, b, loose)
+        ctx.count("history", "loose-request-first" + (":err" if is_err(l1) or is_err(l2) else ""))
     rules0 = dict(DISPATCH.rules)
     Ainv = ctx.call(L.inv, A, *alg)
     inv_rules = sorted(r for r, c in DISPATCH.rules.items() if r.startswith("inv(") and c > rules0.get(r, 0))
